@@ -577,12 +577,14 @@ def slide_numbering(ctx):
 
     rng = ctx.rng
     lines, impl, metas = [], [], []
-    for _ in range(12 if ctx.quick else 120):
+    for it in range(12 if ctx.quick else 120):
         n, k, j = rng.randint(1, 5), rng.randint(0, 3), rng.randint(0, 4)
+        if it % 6 == 0:
+            n = rng.randint(10, 13)      # two-digit positions and numbers: "slide10" sorts before "slide2" as a string
         prs = Presentation()
         for _i in range(n + k):
             prs.slides.add_slide(prs.slide_layouts[6])
-        for s_, num in zip(list(prs.slides), rng.sample(range(1, 15), n + k)):
+        for s_, num in zip(list(prs.slides), rng.sample(range(1, 15 if n < 10 else 25), n + k)):
             s_.part.partname = PackURI("/ppt/slides/slide%d.xml" % num)
         lst = prs.part._element.sldIdLst
         for _i in range(k):
